@@ -195,7 +195,10 @@ void console_putchar(console_t *c, char d)
 
 pt_state_t console_eval(pt_t *pt, console_t *c, const char *cmd)
 {
-	uint16_t *i = &c->scratch.u16[sizeof(c->scratch.u16)-1];
+	/* this cannot live in the scratch area: that belongs to the command
+	 * being executed and is wiped whenever a prompt is issued
+	 */
+	uint16_t *i = &c->evali;
 
 	PT_BEGIN(pt);
 
